@@ -75,3 +75,11 @@ pub fn measure<R>(f: impl FnOnce() -> R) -> (R, AllocStats) {
     ACTIVE.with(|a| a.set(false));
     (r, STATS.with(Cell::get))
 }
+
+/// Runs `f` outside any measured region of this thread (harness work in the middle of a measured call).
+pub fn unmeasured<R>(f: impl FnOnce() -> R) -> R {
+    let was = ACTIVE.with(|a| a.replace(false));
+    let r = f();
+    ACTIVE.with(|a| a.set(was));
+    r
+}
